@@ -119,6 +119,25 @@ impl Kanata {
             if let Err(e) = write_key(&mut self.kbd_out, event.code, KeyValue::Repeat) {
                 bail!("could not write key {e:?}");
             }
+            return Ok(());
+        }
+        // The key itself is not pressed; it may have been replaced by the output of an override.
+        // The layer tables checked above already include override outputs
+        // but the defsrc key reached through transparency or as an unmapped key does not.
+        for osc in self
+            .overrides
+            .output_non_mods_for_input_non_mod(event.code)
+            .iter()
+            .rev()
+            .copied()
+        {
+            if self.cur_keys.contains(&osc.into()) {
+                log::debug!("repeat    {:?}", KeyCode::from(osc));
+                if let Err(e) = write_key(&mut self.kbd_out, osc, KeyValue::Repeat) {
+                    bail!("could not write key {e:?}");
+                }
+                return Ok(());
+            }
         }
         Ok(())
     }
